@@ -48,11 +48,18 @@ type ParamInfo struct {
 	Heap map[*Object]Value // entry heap
 }
 
+// QFact is a universally quantified hypothesis (over one 64-bit variable) kept in the state; it is used by
+// instantiating it at the skolem constants of the goal being proved.
+type QFact struct {
+	Inst func(k *Term) *Term
+}
+
 type State struct {
-	Heap  map[*Object]Value
-	PC    []*Term
-	Ghost map[string]*Term
-	Dead  bool
+	Heap   map[*Object]Value
+	PC     []*Term
+	Ghost  map[string]*Term
+	Quants []*QFact
+	Dead   bool
 }
 
 func (s *State) Clone() *State {
@@ -64,7 +71,39 @@ func (s *State) Clone() *State {
 	for k, v := range s.Ghost {
 		g[k] = v
 	}
-	return &State{Heap: h, PC: append([]*Term(nil), s.PC...), Ghost: g}
+	return &State{Heap: h, PC: append([]*Term(nil), s.PC...), Ghost: g, Quants: append([]*QFact(nil), s.Quants...)}
+}
+
+// skolemsOf lists the skolem constants (variables named sk.*) of a term.
+func skolemsOf(t *Term) []*Term {
+	vs, _ := CollectVars([]*Term{t})
+	var out []*Term
+	for _, v := range vs {
+		if strings.HasPrefix(v.Name, "sk.") && v.S.K == KBV && v.S.W == 64 {
+			out = append(out, v)
+		}
+	}
+	return out
+}
+
+// instances of the state's quantified hypotheses at the goal's skolems (and at the skolems those introduce, once)
+func (s *State) instances(goal *Term) []*Term {
+	if len(s.Quants) == 0 {
+		return nil
+	}
+	sk := skolemsOf(goal)
+	if len(sk) == 0 {
+		return nil
+	}
+	var out []*Term
+	for _, q := range s.Quants {
+		for _, k := range sk {
+			if t := q.Inst(k); t != nil && !t.IsTrue() {
+				out = append(out, t)
+			}
+		}
+	}
+	return out
 }
 
 func (s *State) Assume(t *Term) {
@@ -102,7 +141,8 @@ type Contract interface {
 
 type LoopSpec struct {
 	// Invariant evaluated at the loop header. Env gives access to SSA values (phis by name).
-	Invariant func(fx *FnExec, fr *Frame, st *State, entry *State) []*NamedTerm
+	// assume=true: the result is assumed (quantified clauses are registered as hypotheses in st); false: goals.
+	Invariant func(fx *FnExec, fr *Frame, st *State, entry *State, assume bool) []*NamedTerm
 	// Decreases returns a BV64 (signed) measure; nil = none
 	Decreases func(fx *FnExec, fr *Frame, st *State) *Term
 	Unroll    int
@@ -337,7 +377,7 @@ func (fx *FnExec) Oblige(st *State, name, kind string, goal *Term, pos, info str
 		fx.Obls = append(fx.Obls, &Oblig{Name: name, Kind: kind, Fn: FuncName(fx.Fn), Assumes: nil, Goal: True, Pos: pos, Info: info, Entry: fx.Entry})
 		return
 	}
-	fx.Obls = append(fx.Obls, &Oblig{Name: name, Kind: kind, Fn: FuncName(fx.Fn), Assumes: append([]*Term(nil), st.PC...), Goal: goal, Pos: pos, Info: info, Entry: fx.Entry})
+	fx.Obls = append(fx.Obls, &Oblig{Name: name, Kind: kind, Fn: FuncName(fx.Fn), Assumes: append(append([]*Term(nil), st.PC...), st.instances(goal)...), Goal: goal, Pos: pos, Info: info, Entry: fx.Entry})
 }
 
 // check emits a safety obligation and then assumes the goal (execution continues only if no panic).
@@ -1093,6 +1133,16 @@ func (fx *FnExec) BinOpV(fr *Frame, st *State, in ssa.Instruction, op token.Toke
 			if signed {
 				if op == token.QUO {
 					return Scalar{SDiv(x, y)}
+				}
+				if !y.IsConst() && x.S.W == 64 && st != nil {
+					// symbolic divisor: use the remainder lemma (obligation lemma.srem64 of the property that needs it)
+					// on a fresh result instead of the division circuit
+					r := fx.Cx.Fresh("rem", BV(64))
+					z := BVC(64, 0)
+					st.Assume(Implies(And(SLe(z, x), SLt(z, y)), And(SLe(z, r), SLt(r, y), Implies(SLt(x, y), Eq(r, x)), Implies(And(SLe(y, x), SLt(Sub(x, y), y)), Eq(r, Sub(x, y))))))
+					st.Assume(Implies(And(SLt(x, z), SLt(z, y)), And(SLt(Neg(y), r), SLe(r, z))))
+					fx.Cx.Note("x % y with symbolic 64-bit divisor: result abstracted by the remainder lemma (0<=x,0<y: 0<=r<y, r==x if x<y, r==x-y if y<=x<2y; x<0<y: -y<r<=0), which is proved separately as obligation lemma.srem64")
+					return Scalar{r}
 				}
 				return Scalar{SRem(x, y)}
 			}
